@@ -31,8 +31,8 @@ const (
 
 func StartPresign(c *config.Config, signers []party.ID, message []byte, pl *pool.Pool) protocol.StartFunc {
 	return func(sessionID []byte) (round.Session, error) {
-		if c == nil {
-			return nil, errors.New("presign: config is nil")
+		if err := c.Validate(); err != nil {
+			return nil, fmt.Errorf("presign: %w", err)
 		}
 
 		info := round.Info{
@@ -98,6 +98,9 @@ func StartPresignOnline(c *config.Config, preSignature *ecdsa.PreSignature, mess
 	return func(sessionID []byte) (round.Session, error) {
 		if c == nil || preSignature == nil {
 			return nil, errors.New("presign: config or preSignature is nil")
+		}
+		if err := c.Validate(); err != nil {
+			return nil, fmt.Errorf("presign: %w", err)
 		}
 		// this could be used to indicate a pre-signature later on
 		if len(message) == 0 {
